@@ -129,14 +129,17 @@ class Gen:
                 a, b = self.multi(lambda: self.expr("string", sc, d - 1), lambda: self.expr("string", sc, d - 1))
                 if a == b: b = Bin("+", b, S("q"))
                 return Bin(r.choice(["==", "!="]), a, b)
-            if c < 0.93:
+            if c < 0.91:
                 rs = [v for v in sc.all() if v[1] == "Rec"]
                 if rs: return Field(V(r.choice(rs)[0]), "ok")
+            if c < 0.95:
+                return Call("str_contains", self.expr("string", sc, d - 1), S(r.choice(["a", "n", "", "x y", "9"])))
             return self.lit(ty, sc, d)
         if ty == "string":
             c = r.random()
             if c < 0.3: return Bin("+", *self.multi(lambda: self.expr("string", sc, d - 1), lambda: self.expr("string", sc, d - 1)))
-            if c < 0.5: return Call("int_to_string", self.expr("int", sc, d - 1))
+            if c < 0.45: return Call("int_to_string", self.expr("int", sc, d - 1))
+            if c < 0.5: return Call("str_substring", self.expr("string", sc, d - 1) if self.impure_ok else S("nanolang"), I(r.randint(0, 3)), I(r.randint(0, 4)))
             if c < 0.6:
                 rs = [v for v in sc.all() if v[1] == "Rec"]
                 if rs: return Field(V(r.choice(rs)[0]), "tag")
